@@ -137,6 +137,7 @@ def _id_cases(rng, tier):
 
 def _idc_cases(rng, tier):
     return [dict(c, src="idc") for c in c03.cases(rng, tier)]
+# (the walk is cheap: the whole C01 and C03 streams are used, SCM evaluation is not repeated here)
 
 
 def _id_run(case):
